@@ -272,7 +272,12 @@ def den_path(path, m, which='must'):
             if last:
                 lang = s_cat(s_opt(s_cat(G, s_star(s_cat(SEPS, G)))), TRAILOPT)
             else:
-                lang = s_cat(s_star(s_cat(G, SEPS)), lang)
+                rest = lang
+                lang = s_cat(s_star(s_cat(G, SEPS)), rest)
+                if which == 'may' and s_nullable(rest):
+                    # everything after the `**` can match empty (`**/?(a)`): the statement does not say whether the
+                    # written separator is then still required
+                    lang = s_alt(lang, s_cat(G, s_star(s_cat(SEPS, G))))
         else:
             sl = seg_lang(s, m, which)
             if which == 'may' and can_be_empty(s, m):
@@ -286,6 +291,8 @@ def den_path(path, m, which='must'):
                     lang_i = s_alt(lang_i, TRAILOPT)
             else:
                 lang_i = s_cat(sl, SEPS, lang)
+                if which == 'may' and s_nullable(lang):
+                    lang_i = s_alt(lang_i, sl)
                 if sl_opt:
                     lang_i = s_alt(lang_i, s_cat(TRAILOPT, lang))
             lang = lang_i
@@ -295,7 +302,10 @@ def den_path(path, m, which='must'):
     if lead:
         lang = s_cat(SEPS, lang)
     elif (m.extmatchbase or (m.matchbase and len(norm) == 1 and not trail and not any(e[0] == 'sep' for e in els))):
-        lang = s_cat(s_star(s_cat(G, SEPS)), lang)
+        rest = lang
+        lang = s_cat(s_star(s_cat(G, SEPS)), rest)
+        if which == 'may' and s_nullable(rest):
+            lang = s_alt(lang, s_cat(G, s_star(s_cat(SEPS, G))))
     return nonempty(lang, m), relative
 
 
